@@ -512,8 +512,8 @@ def rule_N4(ctx):
     sv = find('_s_ = self.to_dict()', fn)
     ctx.anchor(len(sv) == 1, 'survey dict in select()')
     S = sv[0][1]['_s_']
-    lp = [n for n in fn.body if isinstance(n, ast.For) and
-          has(f"{S}['data'].keys()", n.iter)]
+    lp = [n for n in fn.body if isinstance(n, ast.For) and ast.unparse(
+        n.iter).replace('.keys()', '').replace('"', "'") == f"{S}['data']"]
     ctx.anchor(len(lp) == 1, 'loop over the data variables in select()')
     sels = [n for n in fn.body if isinstance(n, ast.Assign) and isinstance(
         n.value, ast.Dict) and not n.value.keys and isinstance(
